@@ -6,7 +6,7 @@
    macro emits; `strip` removes what a false #[cfg] removes; `rustc_accepts` is false when the items
    contain something rustc refuses (duplicate definitions, Part 3); `client_call`, `client_request`,
    `request_name`, `client_finish` are the semantics of the items under Rust's resolution rules
-   (Part 4). `fb` is the client's fallback arm (panic today, an error later): every statement
+   (Part 4). `fb` is the client's fallback arm (an error since fix 8afb23d, a panic before): every statement
    holds for both. The tie to the real macro is the translation validation run on every check
    (Checks/C17check.v): `gen def = the items read from rustc's expansion of def`. *)
 From Coq Require Import String.
